@@ -210,7 +210,7 @@ func (tp *TableParser) parseTableColumns(cols []tableColXML) []float64 {
 		// Handle repeated columns
 		repeat := 1
 		if col.NumberRepeated != "" {
-			if r, err := strconv.Atoi(col.NumberRepeated); err == nil && r > 0 {
+			if r, err := strconv.Atoi(col.NumberRepeated); err == nil && r > 0 && r <= maxTableColumns {
 				repeat = r
 			}
 		}
@@ -242,14 +242,28 @@ func (tp *TableParser) parseRow(row tableRowXML) ParsedTableRow {
 		}
 	}
 
-	// Parse cells
+	// Parse cells; the spans of one row together stay within the column limit
+	width := 0
 	for _, cell := range row.Cells {
 		parsedCell := tp.parseCell(cell)
+		if width+parsedCell.ColSpan > maxTableColumns {
+			parsedCell.ColSpan = 1
+		}
+		width += parsedCell.ColSpan
 		parsed.Cells = append(parsed.Cells, parsedCell)
 	}
 
 	return parsed
 }
+
+// Limits on the span and repeat counts read from the document. They size the column
+// bookkeeping and the rendered rows, so an absurd value (a 20-byte attribute asking for
+// two billion columns) must not be taken at face value; values beyond the limits are
+// ignored like other invalid values. The limits are those of a spreadsheet grid.
+const (
+	maxTableColumns = 16384
+	maxTableRows    = 1048576
+)
 
 // parseCell parses a table cell.
 func (tp *TableParser) parseCell(cell tableCellXML) ParsedTableCell {
@@ -261,14 +275,14 @@ func (tp *TableParser) parseCell(cell tableCellXML) ParsedTableCell {
 
 	// Parse column span
 	if cell.NumberColumnsSpanned != "" {
-		if span, err := strconv.Atoi(cell.NumberColumnsSpanned); err == nil && span > 0 {
+		if span, err := strconv.Atoi(cell.NumberColumnsSpanned); err == nil && span > 0 && span <= maxTableColumns {
 			parsed.ColSpan = span
 		}
 	}
 
 	// Parse row span
 	if cell.NumberRowsSpanned != "" {
-		if span, err := strconv.Atoi(cell.NumberRowsSpanned); err == nil && span > 0 {
+		if span, err := strconv.Atoi(cell.NumberRowsSpanned); err == nil && span > 0 && span <= maxTableRows {
 			parsed.RowSpan = span
 		}
 	}
